@@ -26,7 +26,7 @@ Theorems here are about the machinery that executes:
   another) holds the activation of the clamped scaled `convAcc` over the memory contents.
 -/
 namespace VelaVerif.Props.C01
-open VelaVerif.Requant VelaVerif.TfliteRef VelaVerif.Lemmas.Sem VelaVerif.Lemmas.Pool VelaVerif.Lemmas.Exec VelaVerif.Tiling VelaVerif.NpuSem VelaVerif.Footprint VelaVerif.Decode
+open VelaVerif.Requant VelaVerif.TfliteRef VelaVerif.Lemmas.Sem VelaVerif.Lemmas.Pool VelaVerif.Lemmas.Exec VelaVerif.Tiling VelaVerif.NpuSem VelaVerif.Footprint VelaVerif.Decode VelaVerif.Isa
 
 /-! ## Tiling -/
 
@@ -871,6 +871,126 @@ theorem exec_pool_block_correct (m m' : Mem) (ctx : Ctx) (b : BlockOp) (regs : R
   · have := scatter_readback m m' b.ofm out.toArray s hslot hsz hsc oy ox oc hy hx hc hdisj
     rw [this]
     simp [Array.getD_eq_getD_getElem?, hv1]
+
+/-! ### … and for elementwise blocks -/
+
+
+/-- the elementwise branch of `execBlock`, inverted -/
+theorem ewBranch_ok (m : Mem) (ctx : Ctx) (b : BlockOp) (regs : RegFile) (rounding : Rounding) (gs : Bool) (ifm : Array Int) (W : Nat)
+    (out : List Int) (h : ewBranch m ctx b regs rounding gs ifm W = .ok out) :
+    ∃ op2, ewOperand2 m b regs = .ok op2 ∧ b.subOp ≤ 6 ∧
+      ∀ oy ox oc, oy < b.ofm.height → ox < b.ofm.width → oc < b.ofm.depth →
+        ∃ pv v, out[(oy * b.ofm.width + ox) * b.ofm.depth + oc]? = some v ∧
+          (let x1 := ifm.getD ((oy * W + ox) * b.ifm.depth + oc) 0 - b.ifm.zeroPoint
+           let x2 := ewX2 b op2 (s16 (regs.get0D IFM2_ZERO_POINT 0)) oy ox oc
+           (if b.ifm2Broadcast / 64 % 2 = 1 then ewValue b rounding gs x2 x1 else ewValue b rounding gs x1 x2) = .ok pv) ∧
+          applyActivation m ctx b (clamp pv b.actMin b.actMax) = .ok v := by
+  unfold ewBranch at h
+  simp only [] at h
+  split at h
+  · simp [throw, throwThe, MonadExcept.throw, bind, Except.bind] at h
+  · rename_i hmode
+    cases ho : ewOperand2 m b regs with
+    | error e => rw [ho] at h; simp [bind, Except.bind] at h
+    | ok op2 =>
+      rw [ho] at h
+      simp only [bind, Except.bind] at h
+      refine ⟨op2, rfl, by omega, ?_⟩
+      intro oy ox oc hy hx hc
+      have ⟨_, hg⟩ := mapM_except_get _ _ out h
+      obtain ⟨v, hv1, hv2⟩ := hg _ (oy, ox, oc) (coords3_get _ _ _ oy ox oc hy hx hc)
+      simp only [] at hv2
+      by_cases hrv : b.ifm2Broadcast / 64 % 2 = 1
+      · simp only [hrv, if_true] at hv2 ⊢
+        cases hp : ewValue b rounding gs (ewX2 b op2 (s16 (regs.get0D IFM2_ZERO_POINT 0)) oy ox oc) (ifm.getD ((oy * W + ox) * b.ifm.depth + oc) 0 - b.ifm.zeroPoint) with
+        | error e => rw [hp] at hv2; simp at hv2
+        | ok pv =>
+          rw [hp] at hv2
+          simp only [] at hv2
+          exact ⟨pv, v, hv1, rfl, hv2⟩
+      · simp only [hrv, if_false] at hv2 ⊢
+        cases hp : ewValue b rounding gs (ifm.getD ((oy * W + ox) * b.ifm.depth + oc) 0 - b.ifm.zeroPoint) (ewX2 b op2 (s16 (regs.get0D IFM2_ZERO_POINT 0)) oy ox oc) with
+        | error e => rw [hp] at hv2; simp at hv2
+        | ok pv =>
+          rw [hp] at hv2
+          simp only [] at hv2
+          exact ⟨pv, v, hv1, rfl, hv2⟩
+
+/-- `execBlock` on an elementwise block: rounding mode, gather, elementwise branch, scatter -/
+theorem exec_ew_block (m m' : Mem) (ctx : Ctx) (b : BlockOp) (regs : RegFile) (w : Option Weights)
+    (hk : b.kind = .elementwise) (hu : b.upscale = 0) (h : execBlock m ctx b regs w = .ok m') :
+    ∃ rounding l out, Rounding.ofBits (b.ofmPrecision / 16384 % 4) = some rounding ∧ gatherList m b.ifm = .ok l ∧
+      ewBranch m ctx b regs rounding (decide (b.ofmPrecision / 256 % 2 = 1)) l.toArray b.ifm.width = .ok out ∧
+      scatter m b.ofm out.toArray = .ok m' := by
+  unfold execBlock at h
+  simp only [hk, hu, show ¬ ((0 : Nat) > 2) by decide, ne_eq, not_true_eq_false, false_and, if_false, if_true, pure_bind] at h
+  split at h
+  · simp [throw, throwThe, MonadExcept.throw, bind, Except.bind] at h
+  · split at h
+    · simp [throw, throwThe, MonadExcept.throw, bind, Except.bind] at h
+    · split at h
+      · rename_i rounding hro
+        unfold gather at h
+        cases hg : gatherList m b.ifm with
+        | error e => rw [hg] at h; simp [bind, Except.bind] at h
+        | ok l =>
+          rw [hg] at h
+          simp only [bind, Except.bind, pure, Except.pure] at h
+          cases hc : ewBranch m ctx b regs rounding (decide (b.ofmPrecision / 256 % 2 = 1)) l.toArray b.ifm.width with
+          | error e => rw [hc] at h; simp at h
+          | ok out =>
+            rw [hc] at h
+            exact ⟨rounding, l, out, hro, rfl, hc, h⟩
+      · simp [throw, throwThe, MonadExcept.throw] at h
+
+
+/-- **An elementwise block, end to end**: after a successful `execBlock` every OFM element (sharing no byte with another) holds
+    the activation of the clamped `ewValue` (MUL / ADD / SUB / MIN / MAX / LRELU / ABS with the OFM / OPA / OPB scales of the
+    registers) of the first operand read from memory at the IFM address of that element and the second operand `ewX2`
+    (`ewOperand2_tensor`: also read from memory when it is a tensor), zero points removed, operands swapped when the
+    registers say so. `npu_add_eq_ref` relates the ADD / SUB value to the reference. -/
+theorem exec_ew_block_correct (m m' : Mem) (ctx : Ctx) (b : BlockOp) (regs : RegFile) (w : Option Weights) (s : Nat)
+    (hk : b.kind = .elementwise) (hu : b.upscale = 0) (h : execBlock m ctx b regs w = .ok m')
+    (hslot : regionSlot b.ofm.region = some s) (hsz : s < m.regions.size)
+    (oy ox oc : Nat) (hy : oy < b.ofm.height) (hx : ox < b.ofm.width) (hc : oc < b.ofm.depth)
+    (hyi : oy < b.ifm.height) (hxi : ox < b.ifm.width) (hci : oc < b.ifm.depth)
+    (hdisj : ∀ y' x' c', y' < b.ofm.height → x' < b.ofm.width → c' < b.ofm.depth → (y', x', c') ≠ (oy, ox, oc) →
+      fmAddr b.ofm oy ox oc + b.ofm.elemBytes ≤ fmAddr b.ofm y' x' c' ∨ fmAddr b.ofm y' x' c' + b.ofm.elemBytes ≤ fmAddr b.ofm oy ox oc) :
+    ∃ (rounding : Rounding) (op2 : Array Int × Nat × Nat × Nat) (pv v : Int),
+      Rounding.ofBits (b.ofmPrecision / 16384 % 4) = some rounding ∧ ewOperand2 m b regs = .ok op2 ∧
+      (let x1 := memFm m b.ifm oy ox oc - b.ifm.zeroPoint
+       let x2 := ewX2 b op2 (s16 (regs.get0D IFM2_ZERO_POINT 0)) oy ox oc
+       (if b.ifm2Broadcast / 64 % 2 = 1 then ewValue b rounding (decide (b.ofmPrecision / 256 % 2 = 1)) x2 x1
+        else ewValue b rounding (decide (b.ofmPrecision / 256 % 2 = 1)) x1 x2) = .ok pv) ∧
+      applyActivation m ctx b (clamp pv b.actMin b.actMax) = .ok v ∧
+      m'.readElem b.ofm.region (fmAddr b.ofm oy ox oc) b.ofm.elemBytes b.ofm.signed = .ok (wrapElem b.ofm.elemBytes b.ofm.signed v) := by
+  obtain ⟨rounding, l, out, hro, hg, heb, hsc⟩ := exec_ew_block m m' ctx b regs w hk hu h
+  obtain ⟨op2, hop, _, hvals⟩ := ewBranch_ok m ctx b regs rounding _ l.toArray b.ifm.width out heb
+  obtain ⟨pv, v, hv1, hv2, hv3⟩ := hvals oy ox oc hy hx hc
+  refine ⟨rounding, op2, pv, v, hro, hop, ?_, hv3, ?_⟩
+  · rw [← gather_getD m b.ifm l hg oy ox oc hyi hxi hci]
+    exact hv2
+  · have := scatter_readback m m' b.ofm out.toArray s hslot hsz hsc oy ox oc hy hx hc hdisj
+    rw [this]
+    simp [Array.getD_eq_getD_getElem?, hv1]
+
+/-- the second operand, when it is a tensor: the gathered box of its feature-map registers, so that `ewX2` reads the memory
+    contents at the IFM2 addresses (with broadcasting over the dimensions of extent 1) -/
+theorem ewOperand2_tensor (m : Mem) (b : BlockOp) (regs : RegFile) (fm : FM) (op2 : Array Int × Nat × Nat × Nat)
+    (hfm : b.ifm2 = some fm) (h : ewOperand2 m b regs = .ok op2) :
+    op2.2 = (fm.height, fm.width, fm.depth) ∧
+    ∀ y x c, y < fm.height → x < fm.width → c < fm.depth → op2.1.getD ((y * fm.width + x) * fm.depth + c) 0 = memFm m fm y x c := by
+  unfold ewOperand2 at h
+  rw [hfm] at h
+  simp only [] at h
+  unfold gather at h
+  cases hg : gatherList m fm with
+  | error e => rw [hg] at h; simp [bind, Except.bind] at h
+  | ok l =>
+    rw [hg] at h
+    simp only [bind, Except.bind, pure, Except.pure] at h
+    cases h
+    exact ⟨rfl, fun y x c hy hx hc => gather_getD m fm l hg y x c hy hx hc⟩
 
 /-- non-vacuity: the block of `Lemmas/Exec.lean` (1x2x1 int8 IFM [5, -6], 1x1 kernel of weight 3, bias 1, unit scale) executes
     and leaves [16, -17] in the OFM bytes -/
